@@ -389,6 +389,10 @@ pub struct ThreadSpec {
     /// Per-thread tick counts at which this thread offers to yield.
     #[serde(default)]
     pub preempt_ticks: Vec<u64>,
+    /// (site index, n): this thread also offers to yield the n-th time it
+    /// reaches that tick/probe site - preemption inside rarely taken paths.
+    #[serde(default)]
+    pub preempt_sites: Vec<(u32, u64)>,
 }
 
 #[derive(Serialize, Deserialize, Clone, Debug, PartialEq, Eq)]
